@@ -749,7 +749,8 @@ pub fn diagnostic_display_input<W: std::fmt::Write>(w: &mut W, input: &Inp) -> R
         Inp::Star => write!(w, r#"*"#)?,
         Inp::Command { cmd, .. } => write!(w, r#"{{{{{{ {cmd} }}}}}}"#)?,
         Inp::Compadd { cmd, .. } => write!(w, r#"{{{{{{ {cmd} }}}}}}compadd"#)?,
-        Inp::Subword { .. } => unreachable!(),
+        // A path leading to a conflict may go through a within-word expression
+        Inp::Subword { .. } => write!(w, r#"<subword>"#)?,
     }
     Ok(())
 }
